@@ -196,6 +196,183 @@ class CopyAfterSelection(ast.NodeTransformer):
         return n
 
 
+class InsertLogging(ast.NodeTransformer):
+    """a developer adds debug logging: `logger.debug(...)` after the docstring of every function and in front of every return"""
+
+    def _log(self, txt):
+        return ast.Expr(value=ast.Call(func=ast.Attribute(value=ast.Name(id="logger", ctx=ast.Load()), attr="debug", ctx=ast.Load()), args=[ast.Constant(value=txt)], keywords=[]))
+
+    def __init__(self):
+        self.has_logger = False
+
+    def visit_Module(self, n):
+        self.has_logger = any(isinstance(x, ast.ImportFrom) and any(a.name == "logger" for a in x.names) for x in n.body) or \
+            any(isinstance(x, ast.Assign) and any(isinstance(t, ast.Name) and t.id == "logger" for t in x.targets) for x in n.body)
+        if not self.has_logger:
+            return n
+        self.generic_visit(n)
+        return n
+
+    def _block(self, stmts):
+        out = []
+        for st in stmts:
+            if isinstance(st, ast.Return):
+                out.append(self._log("returning"))
+            out.append(st)
+        return out
+
+    def visit_FunctionDef(self, n):
+        self.generic_visit(n)
+        body = list(n.body)
+        i = 1 if body and isinstance(body[0], ast.Expr) and isinstance(body[0].value, ast.Constant) and isinstance(body[0].value.value, str) else 0
+        while i < len(body) and isinstance(body[i], (ast.Nonlocal, ast.Global)):
+            i += 1
+        body.insert(i, self._log(f"entering {n.name}"))
+        n.body = self._block(body)
+        return n
+
+    def visit_If(self, n):
+        self.generic_visit(n)
+        n.body = self._block(n.body)
+        n.orelse = self._block(n.orelse)
+        return n
+
+
+class ExpandAugAssign(ast.NodeTransformer):
+    """x += e  ->  x = x + e   for plain names (lists/frames excluded by restricting to numeric-looking right sides is not possible
+    syntactically, so only Name targets whose right side is a Name/Constant/BinOp/Attribute/Subscript/Call are rewritten when the
+    operator is + or - on names that are never used with .append/.extend in the same function)"""
+
+    def visit_FunctionDef(self, n):
+        listy = {c.func.value.id for c in ast.walk(n) if isinstance(c, ast.Call) and isinstance(c.func, ast.Attribute) and c.func.attr in ("append", "extend", "insert") and isinstance(c.func.value, ast.Name)}
+        listy |= {t.id for a in ast.walk(n) if isinstance(a, ast.Assign) and isinstance(a.value, (ast.List, ast.ListComp)) for t in a.targets if isinstance(t, ast.Name)}
+
+        class X(ast.NodeTransformer):
+            def visit_AugAssign(self, a):
+                if isinstance(a.target, ast.Name) and a.target.id not in listy and isinstance(a.op, (ast.Add, ast.Sub, ast.Mult)):
+                    return ast.Assign(targets=[ast.Name(id=a.target.id, ctx=ast.Store())], value=ast.BinOp(left=ast.Name(id=a.target.id, ctx=ast.Load()), op=a.op, right=a.value))
+                return a
+
+            def visit_FunctionDef(self, f):
+                return f if f is not n else self.generic_visit(f)
+        X().generic_visit(n)
+        self.generic_visit(n)
+        return n
+
+
+class ElifToNested(ast.NodeTransformer):
+    """if a: A elif b: B else: C   ->   if a: A else: (if b: B else: C)  -- same AST in Python, but followed by an explicit `pass`-free block with a
+    leading no-op expression so that the orelse is no longer a single If"""
+
+    def visit_If(self, n):
+        self.generic_visit(n)
+        if len(n.orelse) == 1 and isinstance(n.orelse[0], ast.If):
+            n.orelse = [ast.Expr(value=ast.Constant(value=None)), n.orelse[0]]
+        return n
+
+
+class RenameInnerParams(ast.NodeTransformer):
+    """rename the parameters of lambdas and of nested (inner) functions"""
+
+    def __init__(self):
+        self.depth = 0
+
+    def _rename(self, node, params):
+        mp = {p: f"{p}_p" for p in params if not p.startswith("_") and p not in ("self", "cls")}
+
+        class R(ast.NodeTransformer):
+            def visit_Name(self, x):
+                if x.id in mp:
+                    return ast.copy_location(ast.Name(id=mp[x.id], ctx=x.ctx), x)
+                return x
+
+            def visit_arg(self, a):
+                if a.arg in mp:
+                    a.arg = mp[a.arg]
+                return a
+
+            def visit_Lambda(self, l):
+                inner = {a.arg for a in l.args.args}
+                if inner & set(mp):
+                    return l        # shadowing: leave the inner lambda alone
+                return self.generic_visit(l)
+        return R().visit(node)
+
+    def visit_Lambda(self, n):
+        self.generic_visit(n)
+        ps = [a.arg for a in n.args.args]
+        if n.args.defaults or n.args.kwonlyargs or n.args.vararg or n.args.kwarg:
+            return n
+        return self._rename(n, ps)
+
+    def visit_FunctionDef(self, n):
+        self.depth += 1
+        self.generic_visit(n)
+        self.depth -= 1
+        return n
+
+
+def _signature_table():
+    """name -> parameter list for functions / methods whose name is defined exactly once in hta (plain positional-or-keyword parameters only)"""
+    seen = {}
+    for dp, dn, files in os.walk(os.path.join(REPO, "hta")):
+        for f in files:
+            if not f.endswith(".py"):
+                continue
+            try:
+                tree = ast.parse(open(os.path.join(dp, f), encoding="utf-8").read())
+            except SyntaxError:
+                continue
+            for n in ast.walk(tree):
+                if isinstance(n, ast.FunctionDef):
+                    a = n.args
+                    ok = not a.vararg and not a.kwarg and not a.posonlyargs and not n.decorator_list or all(ast.unparse(d) in ("staticmethod", "classmethod") for d in n.decorator_list) and not a.vararg and not a.kwarg
+                    seen.setdefault(n.name, []).append(([x.arg for x in a.args], [ast.unparse(d) for d in n.decorator_list]) if ok else None)
+    return {k: v[0] for k, v in seen.items() if len(v) == 1 and v[0] is not None and not k.startswith("__")}
+
+
+_SIG = None
+
+
+class PositionalToKeyword(ast.NodeTransformer):
+    """f(a, b) -> f(x=a, y=b) for calls to functions / methods defined exactly once in hta"""
+
+    def visit_Call(self, n):
+        global _SIG
+        self.generic_visit(n)
+        if _SIG is None:
+            _SIG = _signature_table()
+        if any(isinstance(a, ast.Starred) for a in n.args) or any(k.arg is None for k in n.keywords) or not n.args:
+            return n
+        name, skip = None, 0
+        if isinstance(n.func, ast.Name):
+            name = n.func.id
+        elif isinstance(n.func, ast.Attribute) and isinstance(n.func.value, ast.Name) and n.func.value.id in ("self", "cls"):
+            name, skip = n.func.attr, 1
+        sig = _SIG.get(name) if name else None
+        if sig is None:
+            return n
+        params, decos = sig
+        if skip == 0 and params and params[0] in ("self", "cls"):
+            return n
+        if skip == 1 and "staticmethod" in decos:
+            skip = 0
+        if skip == 1 and not (params and params[0] in ("self", "cls")):
+            return n
+        params = params[skip:]
+        if len(n.args) > len(params):
+            return n
+        used = {k.arg for k in n.keywords}
+        new_kw = []
+        for a, p_ in zip(n.args, params):
+            if p_ in used:
+                return n
+            new_kw.append(ast.keyword(arg=p_, value=a))
+        n.keywords = new_kw + n.keywords
+        n.args = []
+        return n
+
+
 def t_unparse(src: str) -> str:
     return ast.unparse(ast.parse(src)) + "\n"
 
@@ -233,6 +410,11 @@ TRANSFORMS = {
     "introduce temporaries for left operands": _tx(IntroduceTemporaries),
     "invert if/else": _tx(InvertIfElse),
     "copy() after boolean selection": _tx(CopyAfterSelection),
+    "insert debug logging (function entry, before returns)": _tx(InsertLogging),
+    "x += e -> x = x + e": _tx(ExpandAugAssign),
+    "elif -> else: <no-op>; if": _tx(ElifToNested),
+    "rename lambda parameters": _tx(RenameInnerParams),
+    "positional -> keyword arguments (hta-defined callees)": _tx(PositionalToKeyword),
 }
 
 
